@@ -11,6 +11,9 @@ CHECKS = {
    text="One iteration of hexsim::Processor::run (+syscall) from an arbitrary architectural state (registers, whole memory as SMT array, input byte symbolic) is compared by z3 with ref_step() of the hexb.pdf reference simulator executed by the same engine; inductive over run length. Extra obligations: HexSimIO stream routing with symbolic stream, image loader on symbolic files.",
    note="Trusted: irsym, z3/cvc5, transcription of hexb.pdf into ref/hexref.c, HexSimIO cut to events in the step harness, std stream members stubbed; property's own address-range assumptions."),
 }
+CHECKS['C12'] = dict(level='other', ref='4/C12',
+   text="Three solver obligations giving the statement by induction over C02's step: real constructor + load() on raw storage with arbitrary contents (z3 asked whether a word outside the image can be non-zero; members still indeterminate are reported); the step run with tracing off and on (trace/traceSyscall executed, formatting stubbed) proved state-, exit- and I/O-equal per path pair; run() past the cycle limit must return a defined value.",
+   note="Trusted: irsym, z3/cvc5; formatting callees (boost::format, ostream<<) modelled as side-effect free on simulator state; fstream constructors stubbed; ASLR/environment covered only through 'nothing indeterminate is read'.")
 NA = {}
 ALL = [json.loads(l)['id'] for l in open(os.path.join(V, 'properties.jsonl'))]
 PENDING = "check not built yet in this session (planned in DESIGN.md); not claimed until it exists"
